@@ -83,6 +83,26 @@ def cases(rng, tier):
             w = "xkey:" + sx(node.extended_public_key())
         n = rng.randint(5, 60) if tier == "quick" else rng.randint(5, 400 if i % 10 == 0 else 80)
         yield "hist %s %s" % (w, ";".join(gen_history(rng, n, watch))), "history-watch" if watch else "history"
+    yield from _collision_cases(rng, tier)
+
+
+def _collision_cases(rng, tier):
+    """the SAME history on wallets whose root keys share the 4-byte fingerprint and the chain code (private and
+    watch-only), back to back in one process: nothing may be remembered under the fingerprint"""
+    from .c09 import point, sec_c
+    pairs = common.fp_pairs()
+    pairs = pairs[:1] if tier == "quick" else pairs[:8]
+    for ka, kb in pairs:
+        chain = bytes(rng.getrandbits(8) for _ in range(32))
+        for watch in (False, True):
+            ops = ";".join(gen_history(rng, rng.randint(8, 25), watch))
+            for k in (ka, kb, ka):
+                if watch:
+                    x, y = point(k)
+                    xk = common.xkey_string(0x0488B21E, 0, bytes(4), 0, chain, sec_c(x, y))
+                else:
+                    xk = common.xkey_string(0x0488ADE4, 0, bytes(4), 0, chain, b"\x00" + k.to_bytes(32, "big"))
+                yield "hist xkey:%s %s" % (sx(xk), ops), "history-fp-collision" + ("-watch" if watch else "")
 
 
 def nontrivial(line, out):
